@@ -146,6 +146,25 @@ def c11():
     n += _traces(chk, behs[len(behs) // 2:], rng, "tlc-simulated+random-observer-subsets", start=n + 1)
     rb = [random_behaviour(rng, resets=0.02, max_jobs=4, max_ops=4, max_m=3) for _ in range(_n(chk, 100, 1000))]
     n += _traces(chk, rb, rng, "random-large+random-observer-subsets", start=n + 1)
+    # the composite built from configurations (what the environments do), on dispatchers that already have observers
+    traces = []
+    for i, b in enumerate(rb[: _n(chk, 40, 200)] + behs[: _n(chk, 20, 100)]):
+        s = dsession.DSession(n + 1 + i, b["inst"], b["filt"], ())
+        for (t, f) in random_creations(rng, composite=False)[: rng.randint(0, 2)]:
+            s.create_builtin(t, f)
+        feats = [(t, f) for (t, f) in random_creations(rng, composite=False) if t in SUPPORTED]
+        if i % 2 == 0 and not any(t == "IsCompletedObserver" for (t, _f) in feats):
+            feats.append(("IsCompletedObserver", None))
+        s.create_composite_from_configs(feats)
+        s.header["featcheck"] = True
+        for a in b["hist"]:
+            if a["a"] == "D":
+                s.dispatch(a["j"], a["p"], a["m"])
+            elif a["a"] == "Reset":
+                s.reset()
+        traces.append(s.trace())
+    chk.monitor(traces, source="composite-from-configurations")
+    n += len(traces)
     eps = [three_episodes(b, rng) for b in (behs[: _n(chk, 60, 300)] + rb[: _n(chk, 40, 200)])]
     n += _traces(chk, eps[::2], rng, "three-episodes+all-feature-observers", start=n + 1, full=True)
     _traces(chk, eps[1::2], rng, "three-episodes+random-observer-subsets", start=n + 1)
